@@ -632,7 +632,16 @@ func replayMain(args []string) {
 	if len(p.Ops) == 0 && len(p.Clients) == 0 && len(p.Steps) == 0 {
 		file = "" // seed-only replay file: the worker regenerates the plan
 	}
-	res, stderr, err := spawnRun(spec, p.Tier, p.Seed, file, true, 600*time.Second)
+	limit := 600 * time.Second
+	if p.Violation != nil && (p.Violation.Class == "hang" || p.Violation.Class == "deadlock") {
+		limit = 120 * time.Second
+	}
+	res, stderr, err := spawnRun(spec, p.Tier, p.Seed, file, true, limit)
+	if err != nil && strings.Contains(err.Error(), "watchdog") && p.Violation != nil && (p.Violation.Class == "hang" || p.Violation.Class == "deadlock") {
+		fmt.Printf("replay: the run did not finish within %v\n", limit)
+		fmt.Printf("VIOLATION property=%s replay=%s\n", p.Violation.Property, args[0])
+		os.Exit(1)
+	}
 	if err != nil {
 		if h := crashHandlerFor(spec); h != nil {
 			if fv := h(spec, p.Seed, stderr, err); fv != nil {
